@@ -82,6 +82,16 @@ def r01c(chk, rid='R01.c'):
            not uncovered, 'no production accepts the one-character text ' + ', '.join(repr(chr(c)) for c in uncovered[:8]))
 
     fn, g, w, f = tokenize_loop(chk)
+    # any other assignment to pos is suspicious: must be one of the recognised forms
+    for n in g.nodes:
+        s = n.stmt
+        if n.kind == 'stmt' and isinstance(s, (ast.Assign, ast.AugAssign)):
+            tg = s.targets if isinstance(s, ast.Assign) else [s.target]
+            if any(text(t) == 'pos' for t in tg) and n.stmt in list(ast.walk(w.stmt)):
+                if not is_progress(n):
+                    # a form the rule cannot decide (neither provably positive nor provably not)
+                    raise AnalysisError(f'Tokenizer.tokenize: position update `{text(s)}` has a form the progress rule does not know (pos += <positive const> | pos += len(found) | pos = _len_text)')
+                chk.ob(rid, TOK, 'Tokenizer.tokenize', f'(3) position update `{text(s)}` is a positive advance', True)
     # (3a) every way round the main loop passes a progress statement, the
     # exhaustion of the production loop excluded (shown impossible by (2)+(3b))
     def labels(a, b, lab):
@@ -95,14 +105,6 @@ def r01c(chk, rid='R01.c'):
     nprog = sum(1 for n in g.nodes if is_progress(n))
     if nprog < 3:
         raise AnalysisError(f'Tokenizer.tokenize: only {nprog} position updates recognised (3 confirmed by hand)')
-    # any other assignment to pos is suspicious: must be one of the recognised forms
-    for n in g.nodes:
-        s = n.stmt
-        if n.kind == 'stmt' and isinstance(s, (ast.Assign, ast.AugAssign)):
-            tg = s.targets if isinstance(s, ast.Assign) else [s.target]
-            if any(text(t) == 'pos' for t in tg) and n.stmt in list(ast.walk(w.stmt)):
-                chk.ob(rid, TOK, 'Tokenizer.tokenize', f'(3) position update `{text(s)}` is a positive advance',
-                       is_progress(n), 'pos may stay or move backwards: the loop need not terminate')
     # (3b) continue statements inside the production loop only skip IDENT
     for n in g.nodes:
         if n.kind == 'continue' and n.stmt in list(ast.walk(f.stmt)):
